@@ -104,8 +104,12 @@ def make_standard_loop(depth):
             log.append("consume")
         ns.consume_sample = consume
 
+        refined = ctx.real("logZ_refined")
+
         def finalise():
             log.append("finalise")
+            ns.state.logZ = refined      # the final refinement changes the evidence
+            ns.state.log_evidence = refined
             ns.finalised = True
         ns.finalise = finalise
         out = ns.nested_sampling_loop()
@@ -120,7 +124,7 @@ def make_standard_loop(depth):
         left_by_tol = bool(conds[n] <= tol)
         ctx.prove((log.count("finalise") == 1) == left_by_tol, "finalise runs exactly when the loop ended because the condition met the tolerance")
         ctx.prove(log.count("checkpoint") == 1, "one final checkpoint")
-        ctx.prove_eq(out[0], ns.state.logZ, "returned evidence is the state's")
+        ctx.prove_eq(out[0], ns.state.logZ, "returned evidence is the state's after the final refinement")
         # second call
         log2 = list(log)
         del log[:]
@@ -174,8 +178,9 @@ def make_ins_loop(depth, ncrit):
         ins.training_samples = Store()
         ins.iid_samples = None
         log = []
-        for name in ("initialise", "_compute_gradient", "add_new_proposal", "update_evidence", "log_state", "update_history", "produce_plots"):
+        for name in ("_compute_gradient", "add_new_proposal", "update_evidence", "log_state", "update_history", "produce_plots"):
             setattr(ins, name, lambda *a, **k: None)
+        ins.initialise = lambda: log.append("initialise")   # draws and evaluates live points when there are none
         ins.determine_log_likelihood_threshold = lambda *a, **k: 0.0
         ins.update_log_likelihood_threshold = lambda t: None
         ins.remove_samples = lambda: 1
@@ -215,7 +220,7 @@ def make_ins_loop(depth, ncrit):
         ctx.prove(log.count("finalise") == 1 and log[-1] == "finalise", "finalise runs once, after the loop")
         del log[:]
         ins.nested_sampling_loop()
-        ctx.prove(log == [], "running again after finishing does no work")
+        ctx.prove(log == [], "running again after finishing does no work (no initialisation, no likelihood evaluation)")
         ctx.cover("end")
     return body
 
